@@ -532,6 +532,134 @@ def interleaved(gen, reindex_only=False):
     return n_in, layers
 
 
+# --------------------------------------------------------------------------- local patterns of consecutive gates
+# What a peephole optimiser looks at: short runs of gates on the same wires.  circuit2zx is a functor: it
+# translates box by box, whatever the neighbours are (theorem circuit2zx_sound is an induction over the box
+# list), so any rewriting of a local pattern that is not an identity of linear maps shows as a disagreement
+# with the model AND as a non-proportional diagram.
+
+PATTERN_G2 = (("N", "CX"), ("N", "CZ"), ("W",), ("C", ("N", "X")), "CRz", "CRx", "CU1")
+PATTERN_G1 = (("N", "H"), ("N", "X"), ("N", "Y"), ("N", "Z"), "Rx", "Rz")
+PATTERNS = ("swap_conjugated", "swap_conjugated_separated", "swap_conjugated_shifted", "gate_inverse",
+            "repeated", "h_conjugated", "hh_conjugated_2q", "h_on_target", "cx_cx", "three_cx_swap",
+            "gate_through_control", "swap_moves_gate", "double_swap", "ket_gate_bra", "inverse_across_swap")
+
+
+def pattern_gate(gen, g, dagger_p=0.25):
+    """A gate of the pattern tables: a descriptor, or the name of a rotation class (phase drawn here)."""
+    if isinstance(g, str):
+        g = typed_rot(gen, g)
+    return ("D", g) if gen.rng.random() < dagger_p else g
+
+
+def near_phase(gen, g):
+    """The same rotation at another phase (for runs of rotations about one axis)."""
+    b = base(g)
+    return typed_rot(gen, b[1]) if b[0] == "R" else g
+
+
+def pattern_layers(gen, name, k):
+    """(width, [(offset, descriptor)]) of one local pattern; `k` rotates through the gate tables so that
+    EVERY two-qubit (one-qubit) gate of the set takes the central place in turn."""
+    rng = gen.rng
+    g2 = pattern_gate(gen, PATTERN_G2[k % len(PATTERN_G2)])
+    g1 = pattern_gate(gen, PATTERN_G1[k % len(PATTERN_G1)])
+    W, H = ("W",), ("N", "H")
+    if name == "swap_conjugated":                       # SWAP >> G >> SWAP at one offset (rewire(G, 1, 0))
+        return 2, [(0, W), (0, g2), (0, W)]
+    if name == "swap_conjugated_separated":             # the same with boxes that touch no wire of it between
+        sep = [(2, pattern_gate(gen, rng.choice(PATTERN_G1)))] if rng.random() < 0.6 else \
+            [(rng.randint(0, 3), gen.scalar())]
+        sep2 = [(2, pattern_gate(gen, rng.choice(PATTERN_G1)))] if rng.random() < 0.5 else []
+        return 3, [(0, W)] + sep + [(0, g2)] + sep2 + [(0, W)]
+    if name == "swap_conjugated_shifted":               # swaps and gate NOT at the same offset: not a conjugation
+        a, b, c = rng.choice([(0, 1, 0), (1, 0, 1), (0, 0, 1), (1, 0, 0), (0, 1, 1)])
+        return 3, [(a, W), (b, g2), (c, W)]
+    if name == "gate_inverse":                          # G >> G.dagger() and G.dagger() >> G
+        g = g2 if k % 2 else g1
+        pair = [g, ("D", g)]
+        if rng.random() < 0.5:
+            pair.reverse()
+        return arity(g)[0], [(0, pair[0]), (0, pair[1])]
+    if name == "repeated":                              # G >> G (>> G): involutions, phases that add up
+        g = g2 if k % 2 else g1
+        run = [g, near_phase(gen, g) if rng.random() < 0.5 else g]
+        if rng.random() < 0.4:
+            run.append(near_phase(gen, g) if rng.random() < 0.5 else g)
+        return arity(g)[0], [(0, x) for x in run]
+    if name == "h_conjugated":                          # H >> G >> H: colour change (H X H = Z, H Rz H = Rx)
+        return 1, [(0, H), (0, g1), (0, H)]
+    if name == "hh_conjugated_2q":                      # H @ H >> G >> H @ H (reverses a CX)
+        return 2, [(0, H), (1, H), (0, g2), (0, H), (1, H)]
+    if name == "h_on_target":                           # Id @ H >> G >> Id @ H (CX <-> CZ), or on the control
+        w = rng.randint(0, 1)
+        return 2, [(w, H), (0, g2), (w, H)]
+    if name == "cx_cx":                                 # two controlled gates in a row, same or opposite direction
+        other = pattern_gate(gen, rng.choice(PATTERN_G2))
+        if rng.random() < 0.5:
+            return 2, [(0, g2), (0, other)]
+        return 2, [(0, g2), (0, W), (0, other), (0, W)]
+    if name == "three_cx_swap":                         # CX, reversed CX, CX (= SWAP)
+        cx = ("N", "CX") if k % 2 else g2
+        return 2, [(0, cx), (0, W), (0, cx), (0, W), (0, cx)]
+    if name == "gate_through_control":                  # G1 @ Id >> G >> G1.dagger() @ Id (commutation rules)
+        w = rng.randint(0, 1)
+        return 2, [(w, g1), (0, g2), (w, ("D", g1) if rng.random() < 0.7 else g1)]
+    if name == "swap_moves_gate":                       # SWAP >> G1 @ Id >> SWAP = Id @ G1
+        w = rng.randint(0, 1)
+        return 2, [(0, W), (w, g1), (0, W)]
+    if name == "double_swap":                           # SWAP >> SWAP, also around nothing but a scalar
+        mid = [(rng.randint(0, 2), gen.scalar())] if rng.random() < 0.5 else []
+        return 2, [(0, W)] + mid + [(0, W)] + ([(0, g2)] if rng.random() < 0.5 else [])
+    if name == "ket_gate_bra":                          # state, gate(s), effect right behind each other
+        g = g2 if k % 2 else g1
+        n = arity(g)[0]
+        return 0, [(0, ("K", gen.bits(n))), (0, g)] + ([(0, ("D", g))] if rng.random() < 0.3 else []) + \
+            [(0, ("B", gen.bits(n)))]
+    if name == "inverse_across_swap":                   # G1 @ Id >> SWAP >> Id @ G1.dagger()
+        return 2, [(0, g1), (0, W), (1, ("D", g1)), (0, W)]
+    raise KeyError(name)
+
+
+def width_keeping_layers(gen, w, n):
+    """n random layers of the gate set on w wires, none of which adds or removes a wire."""
+    out = []
+    for _ in range(n):
+        g = gen.pick(w)
+        while base(g)[0] in "KB":
+            g = gen.pick(w)
+        d, _ = arity(g)
+        off = gen.rng.randint(0, w - d)
+        out.append((off, g, w - off - d))
+    return out
+
+
+def pattern_circuit(gen, name, k):
+    """(n_in, layers): the pattern at a random offset of a circuit of up to 4 wires, behind a few random
+    gates and before a few more (half of the cases: the bare pattern on its own wires)."""
+    rng = gen.rng
+    pw, items = pattern_layers(gen, name, k)
+    kets = name == "ket_gate_bra"
+    inner = max([pw] + [off + arity(g)[0] for off, g in items]) if not kets else 0
+    bare = k % 2 == 0
+    left = 0 if bare else rng.randint(0, max(0, 4 - max(inner, 2)))
+    right = 0 if bare else rng.randint(0, max(0, 4 - max(inner, 2) - left))
+    w = n_in = left + inner + right
+    layers = []
+
+    def noise(n):
+        layers.extend(width_keeping_layers(gen, w, n))
+    if not bare:
+        noise(rng.randint(0, 2))
+    for off, g in items:
+        d, c = arity(g)
+        layers.append((left + off, g, w - left - off - d))
+        w += c - d
+    if not bare:
+        noise(rng.randint(0, 2))
+    return n_in, layers
+
+
 # --------------------------------------------------------------------------- helper constructors
 # hx = ("circ", n_in, layers) | ("id", n) | ("cups", n) | ("caps", n) | ("swap", a, b) | ("perm", [..])
 #    | ("dagger", hx) | ("transpose", hx, left) | ("tensor", [hx..]) | ("then", [hx..])
@@ -559,6 +687,11 @@ def hx_build(e):
         return hx_build(e[1]).dagger()
     if k == "transpose":
         return hx_build(e[1]).transpose(left=e[2])
+    if k == "rewire":
+        from discopy.quantum import gates
+        if e[4] is None:
+            return gates.rewire(qgen.build(e[1]), e[2], e[3])
+        return gates.rewire(qgen.build(e[1]), e[2], e[3], dom=qubit ** e[4])
     if k == "tensor":
         out = Id(0)
         for x in e[1]:
@@ -586,6 +719,9 @@ def hx_show(e):
         return hx_show(e[1]) + ".dagger()"
     if k == "transpose":
         return hx_show(e[1]) + ".transpose(left=%s)" % e[2]
+    if k == "rewire":
+        return "rewire(%s, %d, %d%s)" % (qgen.show(e[1]), e[2], e[3],
+                                         "" if e[4] is None else ", dom=qubit ** %d" % e[4])
     return "(" + (" @ " if k == "tensor" else " >> ").join(hx_show(x) for x in e[1]) + ")"
 
 
@@ -606,6 +742,9 @@ def hx_arity(e):
     if k in ("dagger", "transpose"):
         d, c = hx_arity(e[1])
         return c, d
+    if k == "rewire":
+        n = max(e[2], e[3]) + 1 if e[4] is None else e[4]
+        return n, n
     if k == "tensor":
         ar = [hx_arity(x) for x in e[1]]
         return sum(a for a, _ in ar), sum(b for _, b in ar)
@@ -618,7 +757,7 @@ def hx_ops(e):
         return {k if k == "dagger" else "transpose(left=%s)" % e[2]} | hx_ops(e[1])
     if k in ("tensor", "then"):
         return set().union(*[hx_ops(x) for x in e[1]]) if e[1] else set()
-    return {k} if k != "id" else set()
+    return {k} if k != "id" else set()        # ("rewire" included)
 
 
 def max_width(c):
@@ -903,7 +1042,23 @@ class Check:
         if prec != "hi":
             rep.count("proportionality_at_%s_tolerance" % prec)
         if not ok:
-            if any(f7_gate(g) for _, g, _ in layers):
+            boxwise = None
+            if known:
+                try:
+                    # the translation of every box ON ITS OWN by the library, put side by side: a functor's image
+                    boxwise = [(b, o + l) for l, g, _ in layers
+                               for b, o in read_zx(zx.circuit2zx(build(g)))[1]]
+                    okb, _ = proportional(zx_numpy(dom, boxwise)[0], e, EVAL_TOL[prec])
+                except Exception:  # noqa: diagnosis only
+                    okb = False
+            if known and okb and boxwise != zl:
+                if c_built:
+                    case["shrunk"] = self.shrink(n_in, layers, EVAL_TOL[prec])
+                rep.fail("circuit2zx_not_proportional:not_the_boxwise_translation", case,
+                         "ZX diagram does not denote the evaluation up to a non-zero scalar, although the "
+                         "translations of its boxes one by one, composed, do: the circuit was not translated "
+                         "box by box (a pattern of neighbouring gates was rewritten)")
+            elif any(f7_gate(g) for _, g, _ in layers):
                 zl2 = self.lib("repaired", self.repaired_layers, layers)
                 z2, _ = zx_numpy(dom, zl2)
                 ok2, _ = proportional(z2, e, EVAL_TOL[prec])
@@ -1227,7 +1382,15 @@ def run(tier, seed, replay=None):
                 "circuit), so that a wire carrying a rotation changes its index before the next rotation of "
                 "the same colour; `shape:*` counts circuits of shape Ket >> gates >> Bra, circuits with a "
                 "state or effect in the middle, and circuits with (same-colour) phase gates on a wire across "
-                "a re-indexing. Non-trivial = contains a gate other than a scalar or a rotation at an integer "
+                "a re-indexing; (8) LOCAL PATTERNS OF CONSECUTIVE GATES (`pattern:*`): SWAP >> G >> SWAP at one "
+                "offset for every two-qubit gate G (CX, CZ, SWAP, Controlled(X), CRz, CRx, CU1, daggers), also "
+                "with boxes on other wires / scalars between and with the swaps at another offset; gate-inverse "
+                "pairs, repeated gates, runs of rotations; H-conjugated one- and two-qubit gates, H on target or "
+                "control; two controlled gates in the same / opposite direction, CX-reversed CX-CX; one-qubit "
+                "gates commuted through two-qubit gates, moved by swaps; double swaps; Ket-gate-Bra — every gate "
+                "in the central place of each of the 15 patterns, bare and embedded between random gates; and "
+                "gates.rewire(G, a, b[, dom]) for every two-qubit gate x every ordered pair of wires. "
+                "Non-trivial = contains a gate other than a scalar or a rotation at an integer "
                 "phase, or a number of a type other than int/float/complex; distinct by printed form")
     rep.partial = [
         "the lifting of the per-gate theorem to whole circuits (one overall non-zero scalar = product of the "
@@ -1341,6 +1504,37 @@ def run(tier, seed, replay=None):
             gen = QGen(random.Random(rng.getrandbits(64)), exact=(k % 2 == 0), gateset=zx_gateset)
             n_in, layers = interleaved(gen, reindex_only=(k % 4 < 2))
             chk.circuit(n_in, layers, "interleaved")
+        # local patterns of consecutive gates (what a peephole optimiser would look at), every gate of the set
+        # in the central place of every pattern in turn, bare and embedded; rewire(gate, a, b) of every
+        # two-qubit gate for every pair of wires
+        n_rounds = 1 if not thorough else 14
+        for rnd in range(n_rounds):
+            for k in range(len(PATTERN_G2)):
+                for name in PATTERNS:
+                    kk = k + rnd * len(PATTERN_G2)
+                    gen = QGen(random.Random(rng.getrandbits(64)), exact=((kk + len(name)) % 3 != 0),
+                               gateset=zx_gateset)
+                    n_in, layers = pattern_circuit(gen, name, kk + (rnd % 2))
+                    rep.count("pattern:" + name)
+                    chk.circuit(n_in, layers, "pattern:" + name)
+        pairs3 = [(a, b) for a in range(3) for b in range(3) if a != b]
+        pairs4 = [(a, b) for a in range(4) for b in range(4) if a != b and 3 in (a, b)]
+        for rnd in range(1 if not thorough else 6):
+            for k, g0 in enumerate(PATTERN_G2):
+                todo = pairs3 + (pairs4 if thorough else [pairs4[(k + seed) % len(pairs4)]])
+                for j, (a, b) in enumerate(todo):
+                    gen = QGen(random.Random(rng.getrandbits(64)), exact=((k + j + rnd) % 3 != 0),
+                               gateset=zx_gateset)
+                    g = pattern_gate(gen, g0, dagger_p=0.2)
+                    dom = None if (j + k) % 3 else max(a, b) + 1 + gen.rng.randint(0, 1)
+                    rep.count("pattern:rewire(%s)" % ("adjacent" if abs(a - b) == 1 else "apart"))
+                    e = ("rewire", g, a, b, dom)
+                    if (j + k + rnd) % 4 == 0:                   # also behind / before other gates
+                        n = hx_arity(e)[0]
+                        pre = width_keeping_layers(gen, n, gen.rng.randint(1, 2))
+                        post = width_keeping_layers(gen, n, gen.rng.randint(1, 2))
+                        e = ("then", [("circ", n, pre), e, ("circ", n, post)])
+                    chk.helper(e, "pattern:rewire")
         # circuits
         for k in range(300 if not thorough else 5000):
             gen = QGen(random.Random(rng.getrandbits(64)), exact=(k % 2 == 0), gateset=zx_gateset)
